@@ -144,6 +144,12 @@ def task_gradient_assembly(case):
         ctx.opts['getattr_hook'] = ds_hook
 
         def edges_to_vol(it, args, kw, node):
+            # effective parameters by name (positional and keyword forms are the same call)
+            from .c0910 import bind_call
+            try:
+                kw = {k: v for k, v in bind_call('maps.interp_edges_to_vol_averages', args, kw).items() if k != '**'}
+            except Exception:
+                raise cx.Unsupported('call of interp_edges_to_vol_averages cannot be bound to its signature')
             snap = {k: (kw[k], kw[k].store.uid, kw[k].store.version, kw[k].store.val) for k in ('ox', 'oy', 'oz')}
             log.append(('e2v', dict(kw), snap))
             for k in ('ox', 'oy', 'oz'):
@@ -235,11 +241,25 @@ def task_gradient_assembly(case):
         return True
     clause(col, 'G3_each_pair_uses_its_own_fields_and_a_fresh_zero_buffer_rows_0_1_2', same, per_pair, sample=True)
 
+    def total_store(r):
+        g = r.state['sim'].fields.get('_gradient')
+        return g.store if isinstance(g, cx.NDArr) else None
+
+    def row_of(a):
+        """first index of a view `total[k, ...]` (possibly taken once and bound to a local), None otherwise"""
+        key = a.view[1] if isinstance(a, cx.NDArr) and isinstance(a.view, tuple) and a.view[0] == 'index' else None
+        return key[0] if isinstance(key, tuple) and key else None
+
     def accumulated(r):
         # every per-pair buffer is added to the total gradient exactly once
         log = r.state['log']
         bufs = [x[2]['ox'][1] for x in log if x[0] == 'e2v']
-        adds = [e for e in r.mutations() if e['how'] == 'Add=' and e.get('target') == 'gradient' and isinstance(e.get('value'), cx.NDArr)]
+        gs = total_store(r)
+        if gs is None:
+            from .cxutil import UNRECOGNISED
+            return UNRECOGNISED('the cached gradient is not an array the executor can follow')
+        # additions of a whole per-pair buffer into the storage of the total gradient (identified by storage, not by the name of a local)
+        adds = [e for e in r.mutations() if e['how'] == 'Add=' and e['store'] is gs and isinstance(e.get('value'), cx.NDArr) and e['value'].store.uid in bufs]
         return sorted(a['value'].store.uid for a in adds) == sorted(bufs)
     clause(col, 'G3_every_pair_is_accumulated_once_into_the_total_gradient', same, accumulated)
 
@@ -260,17 +280,19 @@ def task_gradient_assembly(case):
         if got_chain != want_chain:
             return False
         want_add = ([] if case in ('HTI', 'triaxial') else [1]) + ([] if case in ('VTI', 'triaxial') else [2])
-        adds = [e for e in r.mutations() if e['how'] == 'Add=' and e.get('target', '').startswith('gradient[0')]
-        got_add = []
-        for e in adds:
-            v = e.get('value')
-            key = v.view[1] if isinstance(v, cx.NDArr) and isinstance(v.view, tuple) and v.view[0] == 'index' else None
-            got_add.append(key[0] if isinstance(key, tuple) else None)
+        gs = total_store(r)
+        if gs is None:
+            from .cxutil import UNRECOGNISED
+            return UNRECOGNISED('the cached gradient is not an array the executor can follow')
+        # in-place additions into row 0 of the total gradient (the row view may be taken once and bound to a local)
+        is_row0_add = lambda e: e['kind'] == 'mutate' and e['how'] == 'Add=' and e['store'] is gs and row_of(e.get('arr')) == 0
+        adds = [e for e in r.mutations() if is_row0_add(e)]
+        got_add = [row_of(e.get('value')) if isinstance(e.get('value'), cx.NDArr) and e['value'].store is gs else None for e in adds]
         if got_add != want_add:
             return False
         # the x-chain factor comes after the row sums
         k_chain = max(k for k, e in enumerate(ev) if e['kind'] == 'call' and e['name'].endswith('derivative_chain'))
-        k_adds = [k for k, e in enumerate(ev) if e['kind'] == 'mutate' and e['how'] == 'Add=' and e.get('target', '').startswith('gradient[0')]
+        k_adds = [k for k, e in enumerate(ev) if is_row0_add(e)]
         return all(k < k_chain for k in k_adds)
     clause(col, 'G2_rows_without_own_parameter_are_summed_into_x__chain_factor_per_parameter_after_the_sums', same, collection, sample=True)
 
